@@ -24,7 +24,7 @@ claim("C06",
       "v3 environmental level rides on the C03 cubes.",
       "DESIGN.md 6/C06")
 claim("C07",
-      "Three layers on the real v3 decoders: (A) one decodeOne step from an arbitrary representation-invariant state on an arbitrary token string equals the reference step (true forall over strings and 64-bit field values); (B) whole Decode over a finite 115-token alphabet and 13 prefixes for every sequence of up to 3-4 tokens (6 in thorough) and (B') over two arbitrary '/'-free strings, against the reference fold; (E) every canonical vector with symbolic values and one classified edit (all transpositions, all single omissions, insertion of junk/duplicate/foreign tokens at every position, unknown value at every position, 13 prefixes).",
+      "Three layers on the real v3 decoders: (A) one decodeOne step from an arbitrary representation-invariant state on an arbitrary token string equals the reference step (true forall over strings and 64-bit field values); (B) whole Decode over a finite 115-token alphabet and 13 prefixes for every sequence of up to 3-4 tokens (6 in thorough) and (B') over two arbitrary '/'-free strings, against the reference fold; (E) every canonical vector with symbolic values and one classified edit (all transpositions, all single omissions, insertion of junk/duplicate/foreign tokens at every position, unknown value at every position, 13 prefixes). (V) a complete canonical base vector whose version text is an arbitrary string without '/' and ':' is accepted by the three decoders exactly for 3.0 and 3.1 (strconv.Atoi, if the code uses it, is modelled exactly through str.to_int).",
       "Whole-vector claims for arbitrary long token sequences follow from A + B by the two-line induction in DESIGN.md 5; sequences longer than the bounds that are not a single-step defect are outside the claim.",
       "DESIGN.md 5, 6/C07")
 claim("C08",
